@@ -16,6 +16,7 @@ import OFV.Proofs.C09IntMul
 import OFV.Proofs.C09Addr
 import OFV.Proofs.C09Ext4
 import OFV.Proofs.C09Seq
+import OFV.Proofs.C09Bct4
 
 namespace OFV.C09
 open OFV.Model.C09 OFV.Spec.C09
@@ -322,6 +323,43 @@ theorem extractor_sound_spec (p : Poly) (hp : ∀ t ∈ p, t ≠ []) (o : Model.
   split
   · exact h1
   · rfl
+
+/-! ## binary_code_transform (tolerance-free Model)
+
+`Sem.den .qubit R [m] [x]` is the Spec matrix element `⟨x| R |m⟩` (OFV.Proofs.C04Sem).  `BctHyp`
+says that at the qubit state `wq` the decoder returns the occupations of the Fock state `s` and
+the parity list the parities of `s`, without empty monomials; `bct_hypotheses_from_validity`
+derives it from `decode(encode v) = v`.  The proof is an induction over the reversed term
+(occupation projectors via `extractor_sound`, parity bookkeeping, update operator). -/
+
+/-- **binary_code_transform_sound, one term** (every length, every product of ladder operators):
+`⟨x| coef · update · transformed |wq⟩` vanishes when the Spec action `t|s⟩` vanishes, and otherwise
+is `coef · (-1)^k` at the single state `x = wq ⊕ M`, where `t|s⟩ = (-1)^k|s'⟩` in the Spec and `M`
+is the qubit mask of `A · (number of times each mode is flipped) mod 2` — by linearity of the
+encoder the encoding of `s'`. -/
+theorem binary_code_transform_term_sound (c : Code) (plist : List Poly) (wq s : Nat)
+    (hyp : BctHyp c plist (bitsOf wq) s) (t : Model.Term) (ht : ∀ f ∈ t, f.2 ≤ 1) (coef : GQ) (R : Model.Op)
+    (h : bctTerm 0 c plist t coef = .ok R) (x : Nat) :
+    Sem.den .qubit R [wq] [x] =
+      match Spec.actFTerm t s with
+      | none => 0
+      | some (k, _) =>
+        if x = wq ^^^ updMask (encode c ((t.reverse.map (·.1)).foldl addAt (zeros c.nm))) then coef * GQ.sgn k
+        else 0 :=
+  bct_term_sound' c plist wq s hyp t ht coef R h x
+
+/-- the hypotheses of the term theorem hold at the encoded state of every vector on which the
+code is valid, with the parity list `make_parity_list(code)` the transform uses -/
+theorem bct_hypotheses_from_validity (c : Code) (v : List Nat) (wq s : Nat) (hsh : c.dec.length = c.nm)
+    (hpoly : ∀ e ∈ c.dec, ∃ p, e = .poly p) (hne : ∀ e ∈ c.dec, ∀ t ∈ e.toPoly, t ≠ [])
+    (hval : ValidOn c v) (hw : bitsOf wq = encFn c v) (hs : ∀ j, s.testBit j = (v.getD j 0 == 1)) :
+    BctHyp c (makeParityList c) (bitsOf wq) s :=
+  bctHyp_of_valid c v wq s hsh hpoly hne hval hw hs
+
+/-- the update operator `Π X_q` over the odd entries of `A · changed mod 2` flips exactly those qubits -/
+theorem update_operator_sound (cq : List Nat) (m x : Nat) :
+    Sem.den .qubit (updateOp cq) [m] [x] = if x = m ^^^ updMask cq then 1 else 0 :=
+  (flipOp_update cq).2 m x
 
 /-! ## the literal segment codes (tables re-extracted from the source on every run) -/
 
